@@ -510,6 +510,9 @@ func RunTrace(env *Env, cfg TraceCfg, rng *rand.Rand, txs int, emit func(map[str
 		if m["evs"] == nil {
 			m["evs"], m["txc"] = []any{}, 0
 		}
+		if m["lost"] == nil {
+			m["lost"] = false
+		}
 		lines++
 		t.cur = m["db"].(map[string]any)
 		emit(m)
@@ -563,16 +566,12 @@ func RunTrace(env *Env, cfg TraceCfg, rng *rand.Rand, txs int, emit func(map[str
 		switch {
 		case failed != nil:
 			if txErr == nil {
-				failed["cls"] = "lost:" + fmt.Sprint(failed["cls"]) // the body returned an error, Update returned nil
+				failed["lost"] = true // the body returned an error, Update returned nil
 			}
 			failed["db"] = after
 			out(ended(failed))
 		case callerErr:
-			cls := "caller"
-			if txErr == nil {
-				cls = "lost:caller"
-			}
-			out(ended(map[string]any{"op": "callerError", "a": map[string]any{"k": 0}, "res": "fail", "cls": cls, "ret": "", "db": after}))
+			out(ended(map[string]any{"op": "callerError", "a": map[string]any{"k": 0}, "res": "fail", "cls": "caller", "ret": "", "db": after, "lost": txErr == nil}))
 		default:
 			res, cls := "ok", ""
 			if txErr != nil {
